@@ -266,6 +266,8 @@ def run_case(h):
             w.sign_dev, w.sign_answer_op = {}, None
             labels.extend(mw.interlude(p, w, c["interlude"], seq[0]["v1"]))
             w.sign_dev, w.sign_answer_op = saved
+            if labels[-1] == "manager-stopped":
+                break
             labels.append("interlude")
         out = run_one(c, w, p)
         labels.extend(out.labels)
